@@ -23,7 +23,7 @@ from harness import solvermodel as sm
 from harness.checks import c02
 from harness.core import Cut, F
 
-PROPS_MODULES = ["Pdq.Props.C05"]
+PROPS_MODULES = ["Pdq.Props.C05", "Pdq.Props.C05Loop"]
 LEVEL = "proof"
 TOL = 1e-9
 
